@@ -358,3 +358,22 @@ v("c04-initial-commas-drops-last", "C04", SM,
 v("c04-indent-not-whitespace", "C04", "sql_format_options.py", "        assert len(sql_indent.strip()) == 0\n", "")
 v("c04-twin-key-join", "C04", "near_sql.py",
   "                    ops_key = f\"{ops_key}_{list(self.columns)}\"", "                    ops_key = ops_key + \"_\" + str(list(self.columns))", expect="silent")
+
+# ---------------------------------------------------------------- C05
+v("c05-maximum-fmax-swapped-back", "C05", SM,
+  "    \"maximum\": _db_fmax_expr,\n    \"fmax\": _db_maximum_expr,", "    \"maximum\": _db_maximum_expr,\n    \"fmax\": _db_fmax_expr,")
+v("c05-if-else-else-branch", "C05", SM,
+  "        + y_expr\n        + \" ELSE \"\n        + \"NULL\"\n        + \" END\"\n    )\n\n\ndef _db_where_expr", "        + y_expr\n        + \" ELSE \"\n        + y_expr\n        + \" END\"\n    )\n\n\ndef _db_where_expr")
+v("c05-where-swapped", "C05", SM,
+  "    return \"CASE\" + \" WHEN \" + if_expr + \" THEN \" + x_expr + \" ELSE \" + y_expr + \" END\"",
+  "    return \"CASE\" + \" WHEN \" + if_expr + \" THEN \" + y_expr + \" ELSE \" + x_expr + \" END\"")
+v("c05-postgres-log-base10", "C05", "PostgreSQL.py", "        op_replacements[\"log\"] = \"LN\"\n", "        op_replacements[\"log\"] = \"LOG\"\n")
+v("c05-postgres-std-pop", "C05", "PostgreSQL.py", "        op_replacements[\"std\"] = \"STDDEV_SAMP\"", "        op_replacements[\"std\"] = \"STDDEV_POP\"")
+v("c05-sqlite-unregister-arccosh", "C05", "SQLite.py", "            \"arccosh\": functools.partial(_wrap_numpy_fn, numpy.arccosh),\n", "")
+v("c05-sqlite-unregister-expm1-b", "C05", "SQLite.py", "            \"expm1\": functools.partial(_wrap_numpy_fn, numpy.expm1),\n", "", expect="silent")
+v("c05-sqlite-log-is-log10", "C05", "SQLite.py", "            \"log\": functools.partial(_wrap_scalar_fn, math.log),", "            \"log\": functools.partial(_wrap_scalar_fn, math.log10),")
+v("c05-pandas-drop-coalesce", "C05", PB, "            \"coalesce\": lambda a, b: self._coalesce(a, b),  # assuming Pandas series\n", "")
+v("c05-formatter-key-typo", "C05", SM, "    \"is_null\": _db_is_null_expr,", "    \"isnull\": _db_is_null_expr,")
+v("c05-twin-case-parens", "C05", SM,
+  "    return \"CASE\" + \" WHEN \" + if_expr + \" THEN \" + x_expr + \" ELSE \" + y_expr + \" END\"",
+  "    return \"CASE WHEN (\" + if_expr + \") THEN \" + x_expr + \" ELSE \" + y_expr + \" END\"", expect="silent")
